@@ -1,0 +1,7 @@
+//go:build !verif
+
+package config
+
+// verifPoint marks a yield point for the verification harness. Without the
+// "verif" build tag it is an empty function that the compiler inlines away.
+func verifPoint(string) {}
